@@ -277,15 +277,24 @@ func newRoot(t reflect.Type) reflect.Value { return reflect.New(t).Elem() }
 // ---------------------------------------------------------------------------------------------------
 // value utilities: deep copy, structural equality, chunk merge, rendering
 
-func deepCopy(v reflect.Value) reflect.Value {
+// maxDepth bounds every recursive walk: an accepted overlapping set can make the implementation build a
+// cyclic value (a predecessor's map ends up containing itself).
+const maxDepth = 24
+
+func deepCopy(v reflect.Value) reflect.Value { return deepCopyD(v, 0) }
+
+func deepCopyD(v reflect.Value, d int) reflect.Value {
 	if !v.IsValid() {
 		return v
+	}
+	if d > maxDepth {
+		return reflect.Zero(v.Type())
 	}
 	switch v.Kind() {
 	case reflect.Interface:
 		n := reflect.New(v.Type()).Elem()
 		if !v.IsNil() {
-			n.Set(deepCopy(v.Elem()))
+			n.Set(deepCopyD(v.Elem(), d+1))
 		}
 		return n
 	case reflect.Ptr:
@@ -293,7 +302,7 @@ func deepCopy(v reflect.Value) reflect.Value {
 			return reflect.Zero(v.Type())
 		}
 		n := reflect.New(v.Type().Elem())
-		n.Elem().Set(deepCopy(v.Elem()))
+		n.Elem().Set(deepCopyD(v.Elem(), d+1))
 		return n
 	case reflect.Map:
 		if v.IsNil() {
@@ -302,13 +311,13 @@ func deepCopy(v reflect.Value) reflect.Value {
 		n := reflect.MakeMapWithSize(v.Type(), v.Len())
 		it := v.MapRange()
 		for it.Next() {
-			n.SetMapIndex(it.Key(), deepCopy(it.Value()))
+			n.SetMapIndex(it.Key(), deepCopyD(it.Value(), d+1))
 		}
 		return n
 	case reflect.Struct:
 		n := reflect.New(v.Type()).Elem()
 		for i := 0; i < v.NumField(); i++ {
-			n.Field(i).Set(deepCopy(v.Field(i)))
+			n.Field(i).Set(deepCopyD(v.Field(i), d+1))
 		}
 		return n
 	default:
@@ -337,7 +346,12 @@ func unwrap(v reflect.Value) reflect.Value {
 
 // equalMod is structural equality that does not tell a nil map from an empty map (the statement says
 // "zero-valued", an instantiated empty container on a mapped path holds nothing either).
-func equalMod(a, b reflect.Value) bool {
+func equalMod(a, b reflect.Value) bool { return equalModD(a, b, 0) }
+
+func equalModD(a, b reflect.Value, d int) bool {
+	if d > maxDepth {
+		return false
+	}
 	a, b = unwrap(a), unwrap(b)
 	if !a.IsValid() || !b.IsValid() {
 		return a.IsValid() == b.IsValid()
@@ -350,7 +364,7 @@ func equalMod(a, b reflect.Value) bool {
 		if a.IsNil() || b.IsNil() {
 			return a.IsNil() == b.IsNil()
 		}
-		return equalMod(a.Elem(), b.Elem())
+		return equalModD(a.Elem(), b.Elem(), d+1)
 	case reflect.Map:
 		if a.Len() != b.Len() {
 			return false
@@ -358,14 +372,14 @@ func equalMod(a, b reflect.Value) bool {
 		it := a.MapRange()
 		for it.Next() {
 			bv := b.MapIndex(it.Key())
-			if !bv.IsValid() || !equalMod(it.Value(), bv) {
+			if !bv.IsValid() || !equalModD(it.Value(), bv, d+1) {
 				return false
 			}
 		}
 		return true
 	case reflect.Struct:
 		for i := 0; i < a.NumField(); i++ {
-			if !equalMod(a.Field(i), b.Field(i)) {
+			if !equalModD(a.Field(i), b.Field(i), d+1) {
 				return false
 			}
 		}
@@ -403,8 +417,13 @@ func rootEqual(obs, model reflect.Value) bool {
 // mergeChunks folds the chunks a streaming successor received into one value: containers are united
 // recursively, a leaf delivered by exactly one chunk is taken. ok=false: two chunks deliver different
 // non-zero leaves for one place.
-func mergeChunks(a, b reflect.Value) (reflect.Value, bool) {
+func mergeChunks(a, b reflect.Value) (reflect.Value, bool) { return mergeChunksD(a, b, 0) }
+
+func mergeChunksD(a, b reflect.Value, d int) (reflect.Value, bool) {
 	a, b = unwrap(a), unwrap(b)
+	if d > maxDepth {
+		return a, false
+	}
 	if !a.IsValid() {
 		return b, true
 	}
@@ -422,7 +441,7 @@ func mergeChunks(a, b reflect.Value) (reflect.Value, bool) {
 		if b.IsNil() {
 			return a, true
 		}
-		m, ok := mergeChunks(a.Elem(), b.Elem())
+		m, ok := mergeChunksD(a.Elem(), b.Elem(), d+1)
 		n := reflect.New(a.Type().Elem())
 		n.Elem().Set(m)
 		return n, ok
@@ -442,7 +461,7 @@ func mergeChunks(a, b reflect.Value) (reflect.Value, bool) {
 		it = b.MapRange()
 		for it.Next() {
 			if av := a.MapIndex(it.Key()); av.IsValid() {
-				m, o := mergeChunks(av, it.Value())
+				m, o := mergeChunksD(av, it.Value(), d+1)
 				ok = ok && o
 				if !m.IsValid() {
 					n.SetMapIndex(it.Key(), reflect.Zero(a.Type().Elem()))
@@ -458,7 +477,7 @@ func mergeChunks(a, b reflect.Value) (reflect.Value, bool) {
 		n := reflect.New(a.Type()).Elem()
 		ok := true
 		for i := 0; i < a.NumField(); i++ {
-			m, o := mergeChunks(a.Field(i), b.Field(i))
+			m, o := mergeChunksD(a.Field(i), b.Field(i), d+1)
 			ok = ok && o
 			if m.IsValid() {
 				n.Field(i).Set(m)
@@ -477,21 +496,26 @@ func mergeChunks(a, b reflect.Value) (reflect.Value, bool) {
 }
 
 // render prints a value deterministically (sorted keys, no addresses).
-func render(v reflect.Value) string {
+func render(v reflect.Value) string { return renderD(v, 0) }
+
+func renderD(v reflect.Value, d int) string {
 	if !v.IsValid() {
 		return "nil"
+	}
+	if d > 8 {
+		return "<deeper>"
 	}
 	switch v.Kind() {
 	case reflect.Interface:
 		if v.IsNil() {
 			return "nil"
 		}
-		return render(v.Elem())
+		return renderD(v.Elem(), d+1)
 	case reflect.Ptr:
 		if v.IsNil() {
 			return "nil(" + v.Type().String() + ")"
 		}
-		return "&" + render(v.Elem())
+		return "&" + renderD(v.Elem(), d+1)
 	case reflect.Map:
 		if v.IsNil() {
 			return "nil(" + typeShort(v.Type()) + ")"
@@ -504,7 +528,7 @@ func render(v reflect.Value) string {
 			if i > 0 {
 				sb.WriteString(" ")
 			}
-			sb.WriteString(fmt.Sprint(k.Interface()) + ":" + render(v.MapIndex(k)))
+			sb.WriteString(fmt.Sprint(k.Interface()) + ":" + renderD(v.MapIndex(k), d+1))
 		}
 		sb.WriteString("}")
 		return sb.String()
@@ -520,7 +544,7 @@ func render(v reflect.Value) string {
 				sb.WriteString(" ")
 			}
 			first = false
-			sb.WriteString(v.Type().Field(i).Name + ":" + render(v.Field(i)))
+			sb.WriteString(v.Type().Field(i).Name + ":" + renderD(v.Field(i), d+1))
 		}
 		sb.WriteString("}")
 		return sb.String()
